@@ -336,3 +336,41 @@ fn l_ref_roundtrip_rev() {
     let a = any_block();
     assert!(kz::eq(&kz::encrypt_with(&k, &kz::decrypt_with(&k, &a)), &a));
 }
+
+// ------------------------------------------------------------------------------------------------------------------
+// Uninterpreted stand-ins for REFERENCE functions, used in composition obligations of the backends.
+// A composition obligation has the shape  real_caller[callee := callee's contract] == reference_caller,  where the callee's
+// contract and the reference caller both call the same reference function g (L, LSX, l, ...).  The two copies of g's XOR
+// network on equal inputs are trivially equal on paper but expensive for a SAT solver (no structural sharing), so g is
+// replaced on BOTH sides by one uninterpreted function: the obligation then holds for every g, in particular bcref's.
+pub mod ruf {
+    use bcref::kuznyechik as kz;
+    pub const MAXC: usize = 150;
+    // one table for all block-valued functions, distinguished by tag; second argument zero when absent
+    pub static mut TAG: [u8; MAXC] = [0; MAXC];
+    pub static mut A: [[u8; 16]; MAXC] = [[0; 16]; MAXC];
+    pub static mut B: [[u8; 16]; MAXC] = [[0; 16]; MAXC];
+    pub static mut OUT: [[u8; 16]; MAXC] = [[0; 16]; MAXC];
+    pub static mut N: usize = 0;
+    #[allow(static_mut_refs)]
+    fn call(tag: u8, a: &[u8; 16], b: &[u8; 16]) -> [u8; 16] {
+        unsafe {
+            let mut y: [u8; 16] = kani::any();
+            let mut found = false;
+            let mut i = 0;
+            while i < N {
+                if !found && TAG[i] == tag && kz::eq(&A[i], a) && kz::eq(&B[i], b) { y = OUT[i]; found = true; }
+                i += 1;
+            }
+            assert!(N < MAXC);
+            TAG[N] = tag; A[N] = *a; B[N] = *b; OUT[N] = y; N += 1;
+            y
+        }
+    }
+    pub fn l(a: &[u8; 16]) -> [u8; 16] { call(1, a, &[0u8; 16]) }
+    pub fn l_inv(a: &[u8; 16]) -> [u8; 16] { call(2, a, &[0u8; 16]) }
+    pub fn lsx(k: &[u8; 16], a: &[u8; 16]) -> [u8; 16] { call(3, k, a) }
+    pub fn x_linv_sinv(k: &[u8; 16], a: &[u8; 16]) -> [u8; 16] { call(4, k, a) }
+    pub fn c(i: usize) -> [u8; 16] { call(5, &[(i & 0xff) as u8, (i >> 8) as u8, 0, 0, 0, 0, 0, 0, 0, 0, 0, 0, 0, 0, 0, 0], &[0u8; 16]) }
+    pub fn ell(a: &[u8; 16]) -> u8 { call(6, a, &[0u8; 16])[0] }
+}
